@@ -89,6 +89,26 @@ package stake
 //@   requires delegatee != nil && delegatee.TotalPower + added != 0
 //@   pure
 
+// ---- the stake limiter is outside the contracts: only its frame is stated (unverified) -------------
+//@ func (sl *StakeLimiter) CheckLimit(delg, changePower)
+//@   trusted
+//@   requires sl != nil && delg != nil
+//@   modifies StakeLimiter.*, powerObj.*
+
+// ---- validation of staking / unstaking / withdraw transactions (C09, C12, C13) --------------------
+
+//@ func (ctrler *StakeCtrler) ValidateTrx(ctx)
+//@   nopanic
+//@   objinv ctrler != nil && ctrler.delegateeLedger != nil && ctrler.rewardLedger != nil && ctrler.govParams != nil && ctrler.stakeLimiter != nil
+//@   assumes cons_ok == ctx.Exec
+//@   requires wf_ctx(ctx) && u(ctx.Tx.Amount) < 2^120
+//@   modifies everything
+//@   ensures result == nil ==> ctx.Tx.Type == 2 || ctx.Tx.Type == 3 || ctx.Tx.Type == 8                      [C09]
+//@   ensures result == nil && ctx.Tx.Type == 2 ==> u(ctx.Tx.Amount) >= 10^18 && u(ctx.Tx.Amount) % 10^18 == 0   [C11]
+//@   ensures result == nil && ctx.Tx.Type == 8 ==> u(ctx.Tx.Amount) == 0 && istype(ctx.Tx.Payload, ptr(TrxPayloadWithdraw))   [C13]
+//@   ensures result == nil && ctx.Tx.Type == 8 ==> allocated(rwd_at(ctrler.rewardLedger, lkey(content(ctx.Tx.From)), ctx.Exec)) && wf_rwd(rwd_at(ctrler.rewardLedger, lkey(content(ctx.Tx.From)), ctx.Exec))   [C13]
+//@   ensures result == nil && ctx.Tx.Type == 8 ==> u(as(ctx.Tx.Payload, ptr(TrxPayloadWithdraw)).ReqAmt) <= u(rwd_at(ctrler.rewardLedger, lkey(content(ctx.Tx.From)), ctx.Exec).cumulated)   [C13]
+
 // ---- withdraw, unbonding and refund in the controller (C12, C13, C06) ----------------------------
 
 //@ func (ctrler *StakeCtrler) exeWithdraw(ctx)
